@@ -220,3 +220,45 @@ Proof.
     - rewrite Et. apply ends_with_93. }
   split; [exact Hasc|]. intros Hnd. rewrite (unicode_is_ascii hd tu s h p Hnd). exact Hasc.
 Qed.
+
+(* ---------- the round trip for ARBITRARY host functions is false ----------
+   The full statement quantifies over all Host::parse / Display functions and only asks that they are inverse
+   on the host of the origin.  That is not enough: if Host::parse may return a domain whose text contains '/',
+   the serialization is cut at that '/' when it is parsed again.  Witness: Host::parse maps "x" and "a/b" to
+   Domain("a/b") and "a" to Domain("z"); https://x/ has origin (https, a/b, 443), serialized https://a/b, which
+   parses to a URL with origin (https, z, 443).  (The real Host::parse never returns such a domain - C09_domain -
+   so this is a fact about the statement, not about the crate; plain_text / bracket_text are the premises that
+   exclude it.) *)
+Definition rt_full_stmt : Prop :=
+  forall dbg hp ho hd tu input u c o c',
+    url_parse dbg hp ho hd input = POk u ->
+    url_origin dbg hp ho hd c u = OOk o c' -> is_tuple o = true ->
+    (forall s h p, o = Tuple s h p ->
+       hp (str_chars (host_fmt hd h)) = Ok h
+       /\ (forall d, h = HDomain d -> hp (str_chars (tu d)) = Ok h)) ->
+    (exists w, url_parse dbg hp ho hd (ascii_serialization hd o) = POk w
+               /\ url_origin dbg hp ho hd c' w = OOk o c')
+    /\ (exists w, url_parse dbg hp ho hd (unicode_serialization hd tu o) = POk w
+                  /\ url_origin dbg hp ho hd c' w = OOk o c').
+
+Definition x_a_b : list N := [97; 47; 98].
+Definition x_hp (t : list N) : result host :=
+  if list_eqb t [120] then Ok (HDomain x_a_b)
+  else if list_eqb t x_a_b then Ok (HDomain x_a_b)
+  else if list_eqb t [97] then Ok (HDomain [122]) else Err EmptyHost.
+Definition x_hd (h : host) : list N := match h with HDomain d => d | _ => [] end.
+Definition x_input : list N := [104; 116; 116; 112; 115; 58; 47; 47; 120; 47].
+Definition x_url : url := mkUrl [104; 116; 116; 112; 115; 58; 47; 47; 97; 47; 98; 47] 5 8 8 11 HI_Domain None 11 None None.
+
+Lemma rt_full_refuted : ~ rt_full_stmt.
+Proof.
+  intros H.
+  specialize (H true x_hp x_hp x_hd (fun d => d) x_input x_url 0 (Tuple s_https (HDomain x_a_b) 443) 0).
+  destruct H as [[w [Hw Ho]] _].
+  - vm_compute. reflexivity.
+  - vm_compute. reflexivity.
+  - reflexivity.
+  - intros s h p E. inversion E; subst. split; [vm_compute; reflexivity|].
+    intros d Ed. inversion Ed; subst. vm_compute. reflexivity.
+  - vm_compute in Hw. inversion Hw; subst w. vm_compute in Ho. discriminate Ho.
+Qed.
